@@ -277,6 +277,7 @@ fn renumber(sc: &mut Scenario) {
     for (k, c) in sc.conns.iter_mut().enumerate() {
         c.id = k;
         c.twin = c.twin.and_then(|t| old.iter().position(|&o| o == t));
+        c.revalidate = c.revalidate.and_then(|t| old.iter().position(|&o| o == t));
     }
 }
 
